@@ -12,7 +12,7 @@ import (
 func init() {
 	register(&propInfo{
 		ID:          "C17",
-		Explanation: "Path analysis of the keepalive mechanism: (R17.1) every blocking read of the socket is preceded, in the same function, by renewing the read deadline from the configured timeout; (R17.2) both the pong handler and the ping handler installed on the socket signal peer activity to the connection loop with a non-blocking send (this is what also re-arms the loop's idle timer), and the loop's activity arm renews the read deadline; (R17.3) the ping sender is a goroutine that, in a loop paced by the configured ping interval, writes a ping under the write lock and stops on its stop signal; (R17.4) keepalive (handlers + ping sender) is installed in the loop's prologue and again after every socket swap; (R17.5) the read deadline is renewed only on evidence of inbound activity — never on writes or on every loop iteration — so a silent peer is noticed while the client keeps sending; (R17.6) the ping interval and timeout options reach the connection object. (R17.8) the renewal really sets the deadline whenever a timeout is configured; (R17.9) a write deadline put on the socket is lifted before the writer unlocks or returns. R17.3 also: every tick of the ping timer writes a ping; (R17.10) a pong-less ping handler is installed only on a side that sends pings. (R17.11) the peer-activity channel is signalled only inside the pong/ping handlers; (R17.12) the client-side stream buffer always takes from its intake.",
+		Explanation: "Path analysis of the keepalive mechanism: (R17.1) every blocking read of the socket is preceded, in the same function, by renewing the read deadline from the configured timeout; (R17.2) both the pong handler and the ping handler installed on the socket signal peer activity to the connection loop with a non-blocking send (this is what also re-arms the loop's idle timer), and the loop's activity arm renews the read deadline; (R17.3) the ping sender is a goroutine that, in a loop paced by the configured ping interval, writes a ping under the write lock and stops on its stop signal; (R17.4) keepalive (handlers + ping sender) is installed in the loop's prologue and again after every socket swap; (R17.5) the read deadline is renewed only on evidence of inbound activity — never on writes or on every loop iteration — so a silent peer is noticed while the client keeps sending; (R17.6) the ping interval and timeout options reach the connection object. (R17.8) the renewal really sets the deadline whenever a timeout is configured; (R17.9) a write deadline put on the socket is lifted before the writer unlocks or returns. R17.3 also: every tick of the ping timer writes a ping; (R17.10) a pong-less ping handler is installed only on a side that sends pings. (R17.11) the peer-activity channel is signalled only inside the pong/ping handlers; (R17.12) the client-side stream buffer always takes from its intake. (R17.13) the ping sender's stop signal is made per installation; (R17.14) a deadline on the dial is created per dial.",
 		NotDecided:  "Any time bound (how long detection takes, that ping interval < timeout/2 suffices), gorilla's delivery of control frames, timer arithmetic of the idle timer.",
 		Assumptions: []string{"gorilla/websocket invokes the registered ping/pong handlers from the reading goroutine when such control frames arrive", "websocket.PingMessage == 9"},
 		Run:         runC17,
@@ -27,6 +27,9 @@ func runC17(c *Ctx) {
 	c.renewalUnconditional("R17.8")
 	c.rule("R17.10", "a side that replaces gorilla's ping handler (which answers with a pong) by one that does not answer sends pings itself: the replacement is installed only when a ping interval is configured")
 	c.pingHandlerNeedsPinger("R17.10")
+	c.ruleOpt("R17.14", "every redial gets a fresh chance: a deadline on the dial is created per dial, inside the dial function — not once, outside it, where it has long expired when the link fails late in the client's life")
+	c.dialDeadlinePerDial("R17.14")
+	c.ruleOpt("R17.13", "the ping sender started for a (re)connected socket has a stop signal of its own: stopping the previous sender does not stop it")
 	c.rule("R17.12", "a subscriber that stops reading never back-pressures the socket reader (frames behind the stalled stream — the peer's pings among them — must still be read): the client-side buffer always takes from its intake")
 	c.decouplingRule("R17.12")
 	c.rule("R17.11", "the dead-connection detectors are fed only by frames of the peer: the peer-activity channel is signalled only inside the pong/ping handlers")
@@ -151,6 +154,42 @@ func runC17(c *Ctx) {
 				okAll = false
 				c.bad("R17.3", construct, p.pos(pinger.Pos()), "the ping loop has no stop arm that ends it: ping goroutines pile up across reconnects")
 			}
+			// R17.13: the stop signal belongs to this installation of the keepalive
+			allInstrs(pinger, func(in ssa.Instruction) {
+				sel, ok := in.(*ssa.Select)
+				if !ok {
+					return
+				}
+				for _, st := range sel.States {
+					ch, ok := st.Chan.Type().Underlying().(*types.Chan)
+					if st.Dir != types.RecvOnly || !ok || !isEmptyStruct(ch.Elem()) {
+						continue
+					}
+					shared := false
+					var look func(v ssa.Value, d int)
+					look = func(v ssa.Value, d int) {
+						if d > 3 {
+							return
+						}
+						for _, o := range c.origins(v) {
+							for _, f := range append(append([]*types.Var{}, o.Fields...), o.Via...) {
+								if st := structOf(r.TConn); st != nil {
+									for i := 0; i < st.NumFields(); i++ {
+										if st.Field(i) == f {
+											shared = true // kept in the connection object, which outlives any one installation
+										}
+									}
+								}
+							}
+							if call, ok := o.Root.(*ssa.Call); ok && call.Common().IsInvoke() && call.Common().Method.Name() == "Done" {
+								look(call.Common().Value, d+1)
+							}
+						}
+					}
+					look(st.Chan, 0)
+					c.check(!shared, "R17.13", "ping sender: stop signal", c.ipos(sel), "made for this installation of the keepalive", "the ping sender's stop signal is read from a field of the connection (one context or channel for the connection's whole life): stopping the old sender before a reconnect stops every later one too, so after the first reconnect this side sends no pings and a peer that sends none of its own sees the healthy link as dead")
+				}
+			})
 			// every tick sends a ping: from the timer arm the next wait is not reached without the ping write.
 			// Our pings are the peer's only sign of life (it gets no pongs from us), so a tick skipped because
 			// "we have just heard from the peer" starves a peer that is only receiving.
@@ -603,5 +642,60 @@ func (c *Ctx) activityOnlyFromPeer(rule string) {
 	}
 	if n == 0 {
 		c.und(rule, "signals on the peer-activity channel", "-", "none found")
+	}
+}
+
+// dialDeadlinePerDial: R17.14 / R05.13. A context with a deadline that reaches a DialContext call is
+// created in the function that dials (per attempt), not captured from outside.
+func (c *Ctx) dialDeadlinePerDial(rule string) {
+	p := c.P
+	n := 0
+	for _, fn := range p.Funcs {
+		if pkgOf(fn) != p.Root.Pkg {
+			continue
+		}
+		allInstrsRaw(fn, func(in ssa.Instruction) {
+			ci, ok := in.(*ssa.Call)
+			if !ok || !strings.HasSuffix(calleeName(ci), ".DialContext") || len(ci.Common().Args) < 2 {
+				return
+			}
+			var ctxArg ssa.Value
+			for _, a := range ci.Common().Args {
+				if isNamed(a.Type(), "context", "Context") {
+					ctxArg = a
+				}
+			}
+			if ctxArg == nil {
+				return
+			}
+			n++
+			var outside *ssa.Call
+			c.dependsOn(ctxArg, func(v ssa.Value) bool {
+				call, ok := v.(*ssa.Call)
+				if !ok {
+					if ex, isEx := v.(*ssa.Extract); isEx {
+						call, ok = ex.Tuple.(*ssa.Call)
+					}
+				}
+				if ok {
+					switch calleeName(call) {
+					case "context.WithTimeout", "context.WithDeadline", "context.WithTimeoutCause", "context.WithDeadlineCause":
+						if call.Parent() != fn {
+							outside = call
+						}
+					}
+				}
+				return false
+			}, 0, map[ssa.Value]bool{})
+			construct := fmt.Sprintf("%s: deadline of the dial", fname(fn))
+			if outside != nil {
+				c.bad(rule, construct, c.ipos(outside), "the dial runs under a deadline that was created once, outside the dial function: when the link fails later than that in the client's life every redial fails at once with 'context deadline exceeded' and the connection never comes back")
+			} else {
+				c.ok(rule, construct, c.ipos(ci), "no deadline from outside the dial function")
+			}
+		})
+	}
+	if n == 0 {
+		c.ok(rule, "dial", "-", "no DialContext in the library")
 	}
 }
